@@ -69,6 +69,9 @@ def programs():
                 val(OPN[o] + "_T", "%s %s e.t_int" % (W, o), [("T", "int")])
                 if o in ("+", "<<"):
                     val(OPN[o] + "_TV", "%s %s e.v_int" % (W, o), [("TV", "int")])
+                # a hint as the second operand of an arithmetic / bitwise operator: must not come out as a verifiable value
+                val(OPN[o] + "_bhint", "%s %s e.bh" % (W, o), [("BoolHint", "bool")])
+                val(OPN[o] + "_ihint", "%s %s e.ih" % (W, o), [("IntHint", "int")])
         for o in CMP:
             if o in CMP_ALL or isint:
                 val(OPN[o] + "_plain", "%s %s 1" % (W, o))
@@ -85,6 +88,9 @@ def programs():
         val("land_true", "%s && true" % W)
         val("true_land", "true && %s" % W)
         val("lor_false", "%s || false" % W)
+        val("land_bhint", "%s && e.bh" % W, [("BoolHint", "bool")])
+        val("lor_bhint", "%s || e.bh" % W, [("BoolHint", "bool")])
+        val("land_ihint", "%s && e.ih" % W, [("IntHint", "int")])
         val("not", "!%s" % W)
         val("neg", "-%s" % W)
         val("bitnot", "~%s" % W)
@@ -172,6 +178,9 @@ def run(tier, seed, replay):
             return False
         if p.args[0][0] in ("BoolHint", "IntHint") and p.form.startswith("copy_and_verify"):
             return False
+        # a hint among the operands: whatever comes out is again a hint (or nothing), unless the form is a named unwrapping call
+        if any(k in ("BoolHint", "IntHint") for k, _ in p.args) and not declass(p) and v[0] not in ("BoolHint", "IntHint") and v[1] != "void":
+            return False
         return True
     bad = []
     known_seen = {}
@@ -212,7 +221,9 @@ def run(tier, seed, replay):
               "  | None => true",
               "  | Some w =>",
               "    negb (memb (form en) compare_forms && existsb (fun a => kind_eqb (wk a) KTV || is_hint a) (args en) && negb (is_hint w)) &&",
-              "    negb (memb (form en) verifier_forms && match args en with a :: _ => is_hint a | [] => false end)",
+              "    negb (memb (form en) verifier_forms && match args en with a :: _ => is_hint a | [] => false end) &&",
+              "    (* a hint among the operands never comes out as a verifiable (non-hint) value, except through a named unwrapping call *)",
+              "    negb (existsb is_hint (args en) && negb (declass (form en) (args en)) && negb (is_hint w) && negb (is_void w))",
               "  end.",
               ""]
     for fam in tables:
